@@ -318,11 +318,20 @@ DoSolvePressure(e) ==
      IN EmitV(e, c04.fails \cup SetIf(raised, "C04.solve_raised"), {}, c04.hits, {}, c04.rejected \/ oor)
   /\ UNCHANGED <<m, fr, env, fm, bo, pm, sol, prev>>
 
+\* the statement's premise for the solve clauses: the internal interfaces link all cells that have one into one group
+PMConnected == pm # None /\ (\A q \in DOMAIN pm.rows : Len(pm.rows[q].c) = 2) /\
+  LET rows == PRows
+      edges == {<<rows[q].hi, rows[q].lo>> : q \in DOMAIN rows}
+      cellsIn == {p[1] : p \in edges} \cup {p[2] : p \in edges}
+  IN  cellsIn # {} /\ Reach({CHOOSE c \in cellsIn : TRUE}, edges) = cellsIn
+
 DoPressureLin(e) ==
   /\ e.ev = "PressureLin"
   /\ LET raised == e.raised # ""
-         bad == IF raised \/ ~e.in_range THEN {} ELSE {c \in DOMAIN e.p3 : ~Close(e.p3[c], Mul(e.a, e.p1[c]) + Mul(e.b, e.p2[c]), 30 + Abs(e.p3[c]) \div 20000)}
-     IN EmitV(e, SetIf(bad # {}, "C04.linearity") \cup SetIf(raised, "C04.linearity_raised"), {}, {"C04.linearity"}, {}, ~raised /\ ~e.in_range)
+         conn == PMConnected
+         bad == IF raised \/ ~e.in_range \/ ~conn THEN {} ELSE {c \in DOMAIN e.p3 : ~Close(e.p3[c], Mul(e.a, e.p1[c]) + Mul(e.b, e.p2[c]), 30 + Abs(e.p3[c]) \div 20000)}
+     IN EmitV(e, SetIf(bad # {}, "C04.linearity") \cup SetIf(raised /\ conn, "C04.linearity_raised"), {},
+              SetIf(conn, "C04.linearity"), {}, ~conn \/ (~raised /\ ~e.in_range))
   /\ UNCHANGED <<m, fr, env, fm, bo, pm, sol, prev>>
 
 (******************************* two-run equivariance (C06, C07) **********)
